@@ -336,6 +336,12 @@ def run(ctx):
     ctx.holds('P6', m, sf, '%d field stores, all inside set_fields' % sum(
         len(v) for k, v in sf_stores.items() if k in fields), construct='set_fields stores')
 
+    # ---- P9 (C11 R11b): the reader keeps no memory of earlier peeks
+    ctx.rule('P9', 'peeking leaves the token reader unchanged: nothing remembered from a peek (keyed by the identity of a '
+                   'state that may since have been freed) can answer for another, equal-looking derived state (C11 R11b)', 4)
+    from . import c11 as _c11
+    from .. import core as _core
+    _core.run_proxied(ctx, _c11, 'P9', ('R11b',))
     # ---- P8: the changed-field filter compares with ==
     ctx.rule('P8', 'the filter that decides which requested fields changed (_safe_eq) says "equal" only for values '
                    'that are == (or both None): no coarser comparison drops a requested change', 1)
